@@ -194,6 +194,9 @@ def one_case(ctx, k):
         except ZeroDivisionError:
             ctx.count('zero-likelihood-batch-skipped')
             continue
+        except S.ExtremeDensity:
+            ctx.count('batch-with-density-below-exp(-20000)-not-compared-with-the-model')
+            continue
         after = snapshot(order)
         for i, n in enumerate(order):
             if i not in new:
